@@ -388,6 +388,102 @@ def parse_struct(st, enum_suffixes):
     return T
 
 
+
+# ------------------------------------------------------------------------------------------------ enums, by execution
+def probe_enum(path, E, want_prints, want_parses, known_names):
+    """Fallback when operator<< / operator>> of a run-time enum is not written in the textual form parsed below (a
+    switch of `return os << "name"` cases / a plain if - else-if chain): the tables are obtained by EXECUTING the
+    operators of the header.  operator<< is total on the enumerators, so `prints` is exact; operator>> is probed on the
+    printed names, the enumerator identifiers, the names the textual parse of the other operator found, and on
+    mutations of them (upper case, trailing character, empty-like), so a string accepted outside this candidate set is
+    not seen (stated in the generated file).  Returns (prints, print_default, parses, parse_throws)."""
+    import subprocess, tempfile
+    rel = os.path.relpath(path, REPO)
+    ns = "amgcl::" + E["ns"] if E["ns"] else "amgcl"
+    tn = E["tname"]
+    q = lambda v: "%s::%s" % (ns, v)
+    cands = []
+    for v in E["values"] + list(known_names):
+        for c in (v, v.upper(), v + "x", v[:-1] if len(v) > 1 else v + "_"):
+            if c and c not in cands and re.fullmatch(r"[\w.+-]+", c): cands.append(c)
+    cands += [c for c in ("no_such_name", "???", "0", "1") if c not in cands]
+    lines = ['#include <iostream>', '#include <sstream>', '#include <string>', '#include <%s>' % rel, 'int main() {',
+             '  typedef %s::%s T;' % (ns, tn)]
+    for v in E["values"]:
+        lines.append('  { std::ostringstream o; o << %s; std::cout << "P %s " << o.str() << "\\n"; }' % (q(v), v))
+    lines.append('  { std::ostringstream o; o << static_cast<T>(1 << 20); std::cout << "D " << o.str() << "\\n"; }')
+    lines.append('  const char *cands[] = {%s};' % ", ".join('"%s"' % c for c in cands))
+    lines.append('  for (const char *c : cands) { std::istringstream i(c); T t = static_cast<T>(1 << 20); try { i >> t; } catch (const std::exception&) { std::cout << "R " << c << " THROWS\\n"; continue; }')
+    lines.append('    const char *nm = "?";')
+    for v in E["values"]:
+        lines.append('    if (t == %s) nm = "%s";' % (q(v), v))
+    lines.append('    std::cout << "R " << c << " " << (i.fail() ? "FAILBIT" : nm) << "\\n"; }')
+    lines.append('  return 0; }')
+    with tempfile.TemporaryDirectory(dir=os.path.join(VERIF, ".cache") if os.path.isdir(os.path.join(VERIF, ".cache")) else None) as d:
+        src = os.path.join(d, "probe.cpp"); exe = os.path.join(d, "probe")
+        open(src, "w").write("\n".join(lines) + "\n")
+        cc = "mpicxx" if "/mpi/" in rel else "g++"
+        r = subprocess.run([cc, "-std=c++17", "-O0", "-w", "-I" + REPO, "-I/usr/include/eigen3", src, "-o", exe], capture_output=True, text=True)
+        if r.returncode != 0: fail(path, r.stderr[-300:], "operator<< / operator>> not in the parsed textual form and the execution probe does not compile")
+        r = subprocess.run([exe], capture_output=True, text=True, timeout=120)
+        if r.returncode != 0: fail(path, r.stdout[-200:] + r.stderr[-200:], "execution probe of the enum operators failed")
+    prints, dflt, parses, throws_unknown, soft = [], None, [], False, False
+    for l in r.stdout.split("\n"):
+        t = l.split(" ")
+        if t[0] == "P" and len(t) >= 3: prints.append((t[1], " ".join(t[2:])))
+        elif t[0] == "D": dflt = " ".join(t[1:])
+        elif t[0] == "R" and len(t) == 3:
+            if t[2] == "THROWS":
+                if t[1] == "no_such_name": throws_unknown = True
+            elif t[2] == "FAILBIT" or t[2] == "?": soft = True
+            else: parses.append((t[1], t[2]))
+    # a name printed by the default branch only is not a case of operator<<
+    prints = [(e, sname) for e, sname in prints if sname != dflt]
+    return prints, dflt, parses, (throws_unknown and not soft)
+
+def _parse_enum_operators(src, path, E, tn, consumed):
+    ms = list(re.finditer(r"operator\s*<<\s*\(\s*std::ostream\s*&\s*(\w+)\s*,\s*%s\s+(\w+)\s*\)\s*\{" % tn, src))
+    if len(ms) != 1: fail(path, "", "expected exactly one operator<< for the enum, found %d" % len(ms))
+    o = ms[0].end() - 1; c = match_brace(src, o); body = src[o + 1:c]; consumed.append((o, c))
+    osv, var = ms[0].group(1), ms[0].group(2)
+    sm = re.fullmatch(r"\s*switch\s*\(\s*%s\s*\)\s*\{(.*)\}\s*" % var, body, re.S)
+    if not sm: fail(path, body, "operator<< body is not a single switch")
+    rest, prints, dflt = sm.group(1), [], None
+    pat = re.compile(r"\s*case\s+([\w:]+)\s*:\s*return\s+%s\s*<<\s*\"([^\"]*)\"\s*;" % osv)
+    patd = re.compile(r"\s*default\s*:\s*return\s+%s\s*<<\s*\"([^\"]*)\"\s*;" % osv)
+    while rest.strip():
+        mm = pat.match(rest)
+        if mm: prints.append((mm.group(1).split("::")[-1], mm.group(2))); rest = rest[mm.end():]; continue
+        mm = patd.match(rest)
+        if mm: dflt = mm.group(1); rest = rest[mm.end():]; continue
+        fail(path, rest, "unrecognised text in operator<< switch")
+    E["prints"], E["print_default"] = prints, dflt
+    # operator>>
+    ms = list(re.finditer(r"operator\s*>>\s*\(\s*std::istream\s*&\s*(\w+)\s*,\s*%s\s*&\s*(\w+)\s*\)\s*\{" % tn, src))
+    if len(ms) != 1: fail(path, "", "expected exactly one operator>> for the enum, found %d" % len(ms))
+    o = ms[0].end() - 1; c = match_brace(src, o); body = src[o + 1:c]; consumed.append((o, c))
+    isv, var = ms[0].group(1), ms[0].group(2)
+    hm = re.match(r"\s*std::string\s+(\w+)\s*;\s*%s\s*>>\s*(\w+)\s*;" % isv, body)
+    if not hm or hm.group(1) != hm.group(2): fail(path, body, "unrecognised operator>> prologue")
+    sv, rest, parses, throws = hm.group(1), body[hm.end():], [], False
+    pat = re.compile(r"\s*(else\s+)?if\s*\(\s*%s\s*==\s*\"([^\"]*)\"\s*\)\s*%s\s*=\s*([\w:]+)\s*;" % (sv, var))
+    first = True
+    while True:
+        mm = pat.match(rest)
+        if not mm: break
+        if bool(mm.group(1)) == first: fail(path, rest, "operator>> is not a plain if / else-if chain")
+        first = False
+        parses.append((mm.group(2), mm.group(3).split("::")[-1])); rest = rest[mm.end():]
+    mm = re.match(r"\s*else\s+throw\s+std::invalid_argument\s*\(", rest)
+    if mm:
+        o2 = mm.end() - 1; c2 = match_brace(rest, o2, "(", ")"); rest = rest[c2 + 1:]
+        mm2 = re.match(r"\s*;", rest)
+        if not mm2: fail(path, rest, "unrecognised text after throw in operator>>")
+        rest = rest[mm2.end():]; throws = True
+    if not re.fullmatch(r"\s*return\s+%s\s*;\s*" % isv, rest): fail(path, rest, "unrecognised text at the end of operator>>")
+    E["parses"], E["parse_throws"] = parses, throws
+
+
 # ------------------------------------------------------------------------------------------------ enums
 def parse_enum_file(src, path, ns_of_pos):
     """returns (enum dict or None, list of switches)"""
@@ -406,47 +502,18 @@ def parse_enum_file(src, path, ns_of_pos):
     consumed = []       # (start, end) of operator<< / operator>> bodies
     if E:
         tn = E["tname"]
-        # operator<<
-        ms = list(re.finditer(r"operator\s*<<\s*\(\s*std::ostream\s*&\s*(\w+)\s*,\s*%s\s+(\w+)\s*\)\s*\{" % tn, src))
-        if len(ms) != 1: fail(path, "", "expected exactly one operator<< for the enum, found %d" % len(ms))
-        o = ms[0].end() - 1; c = match_brace(src, o); body = src[o + 1:c]; consumed.append((o, c))
-        osv, var = ms[0].group(1), ms[0].group(2)
-        sm = re.fullmatch(r"\s*switch\s*\(\s*%s\s*\)\s*\{(.*)\}\s*" % var, body, re.S)
-        if not sm: fail(path, body, "operator<< body is not a single switch")
-        rest, prints, dflt = sm.group(1), [], None
-        pat = re.compile(r"\s*case\s+([\w:]+)\s*:\s*return\s+%s\s*<<\s*\"([^\"]*)\"\s*;" % osv)
-        patd = re.compile(r"\s*default\s*:\s*return\s+%s\s*<<\s*\"([^\"]*)\"\s*;" % osv)
-        while rest.strip():
-            mm = pat.match(rest)
-            if mm: prints.append((mm.group(1).split("::")[-1], mm.group(2))); rest = rest[mm.end():]; continue
-            mm = patd.match(rest)
-            if mm: dflt = mm.group(1); rest = rest[mm.end():]; continue
-            fail(path, rest, "unrecognised text in operator<< switch")
-        E["prints"], E["print_default"] = prints, dflt
-        # operator>>
-        ms = list(re.finditer(r"operator\s*>>\s*\(\s*std::istream\s*&\s*(\w+)\s*,\s*%s\s*&\s*(\w+)\s*\)\s*\{" % tn, src))
-        if len(ms) != 1: fail(path, "", "expected exactly one operator>> for the enum, found %d" % len(ms))
-        o = ms[0].end() - 1; c = match_brace(src, o); body = src[o + 1:c]; consumed.append((o, c))
-        isv, var = ms[0].group(1), ms[0].group(2)
-        hm = re.match(r"\s*std::string\s+(\w+)\s*;\s*%s\s*>>\s*(\w+)\s*;" % isv, body)
-        if not hm or hm.group(1) != hm.group(2): fail(path, body, "unrecognised operator>> prologue")
-        sv, rest, parses, throws = hm.group(1), body[hm.end():], [], False
-        pat = re.compile(r"\s*(else\s+)?if\s*\(\s*%s\s*==\s*\"([^\"]*)\"\s*\)\s*%s\s*=\s*([\w:]+)\s*;" % (sv, var))
-        first = True
-        while True:
-            mm = pat.match(rest)
-            if not mm: break
-            if bool(mm.group(1)) == first: fail(path, rest, "operator>> is not a plain if / else-if chain")
-            first = False
-            parses.append((mm.group(2), mm.group(3).split("::")[-1])); rest = rest[mm.end():]
-        mm = re.match(r"\s*else\s+throw\s+std::invalid_argument\s*\(", rest)
-        if mm:
-            o2 = mm.end() - 1; c2 = match_brace(rest, o2, "(", ")"); rest = rest[c2 + 1:]
-            mm2 = re.match(r"\s*;", rest)
-            if not mm2: fail(path, rest, "unrecognised text after throw in operator>>")
-            rest = rest[mm2.end():]; throws = True
-        if not re.fullmatch(r"\s*return\s+%s\s*;\s*" % isv, rest): fail(path, rest, "unrecognised text at the end of operator>>")
-        E["parses"], E["parse_throws"] = parses, throws
+        E["by_execution"] = []
+        try:
+            _parse_enum_operators(src, path, E, tn, consumed)
+        except ParseError as textual_error:
+            # harmless rewrites of the operators (table + loop, map lookup, ...) end up here: take the tables from the
+            # running code instead of its text; a header that does not even compile in the probe is a loud failure
+            known = [p_[1] for p_ in E.get("prints", [])] + [p_[0] for p_ in E.get("parses", [])]
+            prints, dflt, parses, throws = probe_enum(path, E, True, True, known)
+            E["prints"], E["print_default"], E["parses"], E["parse_throws"] = prints, dflt, parses, throws
+            E["by_execution"] = ["operator<< / operator>> tables obtained by execution (textual form not recognised: %s)" % str(textual_error).split("\n")[0][-120:]]
+            for mm_ in re.finditer(r"operator\s*(<<|>>)\s*\(\s*std::[io]stream\s*&\s*\w+\s*,\s*%s\s*&?\s*\w+\s*\)\s*\{" % tn, src):
+                o_ = mm_.end() - 1; consumed.append((o_, match_brace(src, o_)))
     # wrapper switches: every other switch in the file
     switches = []
     for m in re.finditer(r"\bswitch\s*\(", src):
